@@ -18,6 +18,7 @@ def _env(ctx, d):
     e["PATH"] = bindir + ":" + e["PATH"]
     e["VERIF_SOCK"] = os.path.join(d, "s.sock")
     e["VERIF_ACK"] = os.path.join(d, "ack")
+    e["VERIF_LINES"] = os.path.join(d, "lines")
     e["GORACE"] = "log_path=%s halt_on_error=0" % os.path.join(d, "race")
     return e
 
@@ -121,3 +122,34 @@ def confirm_filter(ctx, f):
         return False
     tw = dict(t, own=[s["dlv"] for s in recs[0]["steps"]], all=[s["dlv"] for s in recs[1]["steps"]])
     return bool(ctx.validate("Trace_Ports", [tw], shards=1))
+
+
+def run_lines(ctx):
+    """C19 on the real ports: out port -> stand-in helper pair -> in port; lines and received records judged by TLC."""
+    q = ctx.quick
+    d = ctx.sub("mcatl")
+    out = os.path.join(d, "drv.ndjson")
+    n = 25 if q else 300
+    _run(ctx, ["lines", "-seed", str(ctx.seed + 950), "-n", str(n), "-out", out], d)
+    recs, race = _collect(d, out)
+    bad = ctx.validate("Trace_MidicatDrv", recs)
+    ctx.log("midicatdrv out->in line experiments: %d (%d messages), %d rejected" % (len(recs), sum(len(r["msgs"]) for r in recs), len(bad)))
+    fails = []
+    for idx, info in bad:
+        r = recs[idx]
+        fails.append(Failure("drv-lines:%s" % ("pan" if r["pan"] else "lines" if not info["linesOk"] else "back"),
+                             "midicatdrv out port wrote %s for messages %s; in port delivered %s; %s" %
+                             ([bytes(x).decode("latin1")[:60] for x in r["lines"][:3]], [x[:12] for x in r["msgs"][:3]], [x[:12] for x in r["got"][:3]], r["pan"]),
+                             {"family": "drv-lines", "record": {"ev": "drv", "id": r["id"], "msgs": r["msgs"]}}))
+    ctx.count(sum(len(r["msgs"]) for r in recs), [str(r["msgs"]) for r in recs if any(len(m) > 100 for m in r["msgs"])],
+              [{"msgs": [m[:8] for m in r["msgs"][:2]], "lines": [bytes(x).decode("latin1")[:40] for x in r["lines"][:2]]} for r in recs[:1]])
+    return fails
+
+
+def confirm_lines(ctx, f):
+    d = ctx.sub("mcatlre")
+    i, o = os.path.join(d, "in.ndjson"), os.path.join(d, "out.ndjson")
+    open(i, "w").write(json.dumps(f.payload["record"]) + "\n")
+    _run(ctx, ["lines-rerun", "-in", i, "-out", o], d)
+    recs, _ = _collect(d, o)
+    return bool(recs) and bool(ctx.validate("Trace_MidicatDrv", recs[:1], shards=1))
